@@ -272,7 +272,7 @@ def check(run: common.Run):
 
     # ---- sweep (not proof): format_code + every stage function on the deterministic corpus
     fam = sw.build_corpus(run.tier)
-    budget = 45 if run.tier == "quick" else 900
+    budget = 75 if run.tier == "quick" else 900
     deadline = time.time() + budget
     jobs, meta = [], {}
     valid_srcs = {k: [s for s in v if is_valid(s)] for k, v in fam.items()}
@@ -343,6 +343,7 @@ def check(run: common.Run):
     sweep = Counter()
     invalid_outs = []
     syntax_seen = set()
+    matched_ids = set()
     for jid, r in sorted(results.items()):
         kind, name = meta[jid]
         if r.get("skipped"):
@@ -355,6 +356,11 @@ def check(run: common.Run):
                 # some stage built a text that does not parse and the next parse raised: no valid text came back
                 src_, opts_ = jobs[jid][1], jobs[jid][2]
                 sites = {e["stage"], e["inner"], name if kind == "rule" else "main.format_code"}
+                if kind == "format_code":       # the stage that raised is the victim; bisect for the stage that broke the text
+                    culprit = sw.first_bad_stage(mods, src_, opts_, is_valid)
+                    if culprit:
+                        sites = {culprit}
+                        e = dict(e, stage=culprit)
                 f = dfind.match(findings, sites, src_)
                 if f is None:
                     key = (e["type"], e["stage"], kind)
@@ -366,6 +372,7 @@ def check(run: common.Run):
                     sweep["SyntaxError raised, not a known finding"] += 1
                 else:
                     sweep[f"matched {f.id}"] += 1
+                    matched_ids.add(f.id)
             else:
                 sweep["raised (not a SyntaxError) or timed out: C04's business"] += 1
             continue
@@ -388,6 +395,7 @@ def check(run: common.Run):
                                    "output": out})
         else:
             sweep[f"matched {f.id}"] += 1
+            matched_ids.add(f.id)
 
     # ---- known findings: replay the witnesses
     for f in findings:
@@ -395,6 +403,8 @@ def check(run: common.Run):
             continue
         w = WITNESS.get(f.id)
         if w is None:
+            if f.id in matched_ids:     # reproduced by the sweep (site + predicate), no separate witness
+                run.known_finding(f.id, f"site={f.fields.get('site')[:60]} :: {f.text[:150]}")
             continue
         try:
             with common.quiet():
@@ -409,7 +419,12 @@ def check(run: common.Run):
             common.log(f"note: finding {f.id} no longer reproduces")
 
     # ---- verdicts
-    for fi in failing_inputs[:6]:
+    reported_groups = set()
+    for fi in failing_inputs:
+        gkey = (fi.get("kind"), str(fi.get("what"))[:60], fi.get("site"))
+        if gkey in reported_groups or len(reported_groups) >= 24:
+            continue
+        reported_groups.add(gkey)
         run.violation(dict(fi, explanation="the real code violates C03 on this input"), True)
     have_input = bool(failing_inputs)
     for d in disagreements[:6]:
